@@ -102,6 +102,25 @@ func singleEncCase(g *hc.Gen, o *hc.Out, dir string) {
 	if err != nil || len(op.positions) == 0 {
 		return
 	}
+	// outside the law: positions no reader accepts (a zero-width column), a table without records (a single-line file has
+	// no header line: nothing is written that could be read back), and a file whose first bytes are a byte-order mark
+	// because the first cell begins with U+FEFF (every text loader takes those bytes for the mark)
+	last := 0
+	for _, p := range op.positions {
+		if p <= last {
+			o.Count("encs:roundtrip:outside:zero_width_column")
+			return
+		}
+		last = p
+	}
+	if len(t.rows) == 0 {
+		o.Count("encs:roundtrip:outside:no_records")
+		return
+	}
+	if len(b) >= 3 && b[0] == 0xEF && b[1] == 0xBB && b[2] == 0xBF {
+		o.Count("encs:roundtrip:outside:leading_bom_bytes")
+		return
+	}
 	// the write-then-read law on the real code
 	load := func(tt *table) (*dtable, error) {
 		bb, e := realEncode(tt, op)
@@ -251,6 +270,10 @@ func readsBack(o *hc.Out, dir string, how string, data []byte, t *table, op opts
 		last = p
 	}
 	if len(op.positions) == 0 {
+		return
+	}
+	if len(data) >= 3 && data[0] == 0xEF && data[1] == 0xBB && data[2] == 0xBF {
+		o.Count("single_line:outside:leading_bom_bytes") // the first cell begins with U+FEFF: read as a byte-order mark
 		return
 	}
 	want := singleWant(t)
